@@ -197,23 +197,52 @@ def run(rep, tier):
         pr = pr[0]
         rep.analysed(pr)
         fop = Fold(pr, record_calls=r"operator<<$").run()
-        forms = {}
-        sep = None
-        for v, e in stream_items(fop):
-            gs = guard_strs(fop, e["guards"])
-            key = " & ".join(x for x in gs if "loop" not in x)
-            forms.setdefault(key, []).append(str(v))
-        short = {}
-        for k, items in forms.items():
-            txt = "".join("," if i == '","' else ":" if i == '":"' else "b" if i.endswith("begin_") else "e" if i.endswith("end_") else "s" if i.endswith("stride_") else "?" for i in items)
-            short[k] = txt
-        vals = sorted(short.values())
-        okp = sorted(vals) == sorted([",", "b", "b:e", "b:s:e"])
-        eq_guard = [k for k, v in short.items() if v == "b"]
-        st_guard = [k for k, v in short.items() if v == "b:e"]
-        okp = okp and eq_guard and "begin_ == " in eq_guard[0] and st_guard and "stride_ == 1" in st_guard[0]
-        rep.check(okp, "R18.3", "printer-forms", "prints b (begin==end), b:e (stride 1), b:s:e otherwise, separated by ','",
-                  "RangeParser printer forms are %s" % short, pr.loc(), sample=True)
+        # decided by what is printed for representative blocks: the printed text must denote the same sequence as begin:stride:end
+        items = stream_items(fop)
+        condsp = getattr(fop, "conds", {})
+
+        def role(v):
+            t = str(v)
+            return "," if t == '","' else ":" if t == '":"' else "b" if t.endswith("begin_") else "e" if t.endswith("end_") else "s" if t.endswith("stride_") else None
+        from vsa.cases import executes as _ex
+        ats = set()
+        for v, e in items:
+            for g_ in list(e["guards"]) + [x for nl in e.get("not", []) for x in nl]:
+                stack = [g_[0]]
+                while stack:
+                    c = stack.pop()
+                    if isinstance(c, tuple):
+                        stack += list(c[1:])
+                    elif isinstance(c, sp.Basic):
+                        ats |= {a_ for a_ in c.free_symbols}
+        pick = lambda suf: [a_ for a_ in ats if str(a_).endswith(suf)]
+        bA, sA, eA = pick("begin_"), pick("stride_"), pick("end_")
+        okp, whyp = len(bA) == 1 and len(sA) == 1 and len(eA) == 1 and all(role(v) is not None for v, _e in items), "printed items %s" % [str(v) for v, _e in items]
+        if okp:
+            for b_, s_, e_ in ((1, 1, 1), (1, 1, 3), (1, 1, 2), (1, 2, 5), (1, 2, 2), (3, 5, 7), (2, 3, 2), (20, -5, 5), (5, -1, 3), (0, -1, -5), (4, -1, 4), (-8, -3, -8), (-2, -3, -8)):
+                sub = {bA[0]: sp.Integer(b_), sA[0]: sp.Integer(s_), eA[0]: sp.Integer(e_)}
+                txt = ""
+                for v, e in items:
+                    if role(v) == ",":
+                        continue
+                    gs = [g_ for g_ in e["guards"] if not (isinstance(g_[0], tuple) and g_[0] and g_[0][0] == "loop")]
+                    x = _ex({"guards": gs, "not": e.get("not", [])}, sub, {}, None, condsp)
+                    if x is None:
+                        okp, whyp = False, "cannot decide whether %s is printed for the block %d:%d:%d" % (role(v), b_, s_, e_)
+                        break
+                    if x:
+                        txt += role(v)
+                if not okp:
+                    break
+                n_el = (e_ - b_) // s_ + 1
+                good = (txt == "b" and n_el == 1) or (txt == "b:e" and s_ == 1) or txt == "b:s:e"
+                if not good:
+                    okp, whyp = False, "the block %d:%d:%d (%d element%s) is printed as '%s': parsing that text gives a different sequence" % (b_, s_, e_, n_el, "" if n_el == 1 else "s", txt)
+                    break
+        seps = [e for v, e in items if role(v) == ","]
+        okp = okp and len(seps) == 1
+        rep.check(okp, "R18.3", "printer-forms", "prints b (single element), b:e (stride 1), b:s:e otherwise, separated by ','",
+                  "RangeParser printer: %s" % whyp, pr.loc(), sample=True)
     par = F.one(RP + "Parse")
     rep.analysed(par)
     toks = [n for n in par.walk() if n.get("k") == "construct" and "Tokenizer" in (n.get("type") or "") and len(n.get("args", [])) >= 2]
